@@ -525,9 +525,16 @@ def run_asgi(kind, n, ending, choices):
     import inspect
     import baize.asgi.responses as R
 
+    import time as _time
     loop = asyncio.new_event_loop()
     vt = [0.0]
     loop.time = lambda: vt[0]
+    # the wall clock follows the virtual clock but is stepped BACK by 5000 s each time a send completes (an NTP step, a
+    # VM resume): nothing in a streaming response may depend on it (timeouts are measured on the loop's monotonic clock)
+    skew = [0.0]
+    real_time = _time.time
+    _time.time = lambda: 1700000000.0 + vt[0] + skew[0]
+    closed_at = [None]
     timers = []
     real_call_at = loop.call_at
 
@@ -643,7 +650,11 @@ def run_asgi(kind, n, ending, choices):
                     f.set_result({"type": "http.request", "body": b"", "more_body": False})
                 elif c == 3:
                     f.set_result({"type": "http.disconnect"})
+                    if closed_at[0] is None:
+                        closed_at[0] = vt[0]
                 else:
+                    if c == 0:
+                        skew[0] -= 5000.0
                     f.set_result(None)
             elif c == 4:
                 a = armed()
@@ -685,12 +696,16 @@ def run_asgi(kind, n, ending, choices):
                     outcome = "raise"
                 else:
                     outcome = ["exc", type(e).__name__, str(e)[:80]]
+            # "no later than one ping interval after the disconnect" on the loop's clock (ping_interval = 1000 virtual s)
+            if closed_at[0] is not None and vt[0] - closed_at[0] > 1010.0 and isinstance(outcome, str):
+                outcome = ["exc", "LateReturn", "returned %.0f virtual seconds after the disconnect, the ping interval is 1000" % (vt[0] - closed_at[0])]
         else:
             outcome = stuck
         left = len([t for t in asyncio.all_tasks(loop) if not t.done() and t is not main])
         obs = [list(out), outcome, [prod.state(), 1 if prod.begun else 0], prod.nexts, prod.cleanup, prod.closes,
                left, list(cnt)]
     finally:
+        _time.time = real_time
         try:
             for t in asyncio.all_tasks(loop):
                 t.cancel()
